@@ -12,8 +12,8 @@ THEOREMS = ['C16_partition_overlap', 'C16_weights_nonneg', 'C16_rows_sum_to_one'
             'C16_hybrid_integral_conserved', 'C16_latitude_overlap_is_sin_overlap', 'C16_latitude_rows',
             'C16_latitude_integral_conserved', 'C16_latitude_integral_conserved_R',
             'C16_longitude_rows_partial', 'C16_horizontal_integral_conserved_partial',
-            'C16_nan_semantics_strict', 'C16_nan_semantics_skipna', 'C16_periodic_overlap_pointwise_R',
-            'C16_longitude_coarse_refuted',
+            'C16_nan_semantics_strict', 'C16_nan_semantics_skipna', 'C16_periodic_overlap_images',
+            'C16_periodic_overlap_full_circle_R', 'C16_longitude_coarse_conserves',
             'C16_hyps_satisfiable']
 LEVEL = 'proof'
 LEVEL_TEXT = ('machine-checked theorems (Coq) for every ordered field, every number of source/target cells and every '
@@ -21,12 +21,13 @@ LEVEL_TEXT = ('machine-checked theorems (Coq) for every ordered field, every num
               'integral conservation for the vertical (covered range), hybrid->sigma and latitude (sin-measure, also '
               'instantiated at R with the real sin) regridders, NaN semantics of ConservativeRegridder for both skipna '
               'settings; the Gallina model is executed (extraction) against the implementation on generated grid pairs')
-LEVEL_NOTE = ('longitude: non-negativity, row sums, constants and range are proved for the periodic overlap as coded; the '
-              'periodic partition identity (hence conservation of the longitude / tensor-product integral) is NOT proved: '
-              'it enters C16_horizontal_integral_conserved_partial as an explicit hypothesis (only its pointwise core, '
-              'C16_periodic_overlap_pointwise_R, is proved, over R) and is decided by oracle '
-              'exploration on generated grid pairs (>= 4 longitudes) only. sin enters as monotone tables (table obligations '
-              'checked per case). Theorems are about the model Model/Regrid.v, tied to the code by differential correspondence.')
+LEVEL_NOTE = ('longitude: non-negativity, row sums, constants and range are proved for the periodic overlap as coded (three-image '
+              'sum after moving the second interval as a whole); the periodic partition identity (hence conservation of the '
+              'longitude / tensor-product integral) is NOT proved in general: it enters C16_horizontal_integral_conserved_partial '
+              'as an explicit hypothesis (proved: its pointwise building blocks over R and the concrete 3x3 and 4x6 instances) and '
+              'is decided by oracle exploration on generated grid pairs (>= 3 longitudes, incl. wide cells). sin enters as monotone '
+              'tables (table obligations checked per case). Theorems are about the model Model/Regrid.v, tied to the code by '
+              'differential correspondence.')
 TECHNIQUE = 'interactive proof (Coq) + extracted-model differential testing + property oracles'
 
 PERIOD = 2 * np.pi
@@ -89,8 +90,14 @@ def generate(ctx):
         yield 'align', {'x': float(x), 't': float(y), 'p': float(p)}
     for _ in range(8 if quick else 40):
         yield 'align', {'x': float(rng.integers(-40, 41)) / 4, 't': float(rng.integers(-40, 41)) / 4, 'p': float(rng.integers(1, 13))}
-    # out-of-domain witness of C16_longitude_coarse_refuted, replayed on the implementation
+    # witness of C16_longitude_coarse_conserves (former failing input), replayed on the implementation
     yield 'coarse_lon', {'sx': [0.0, 4.0, 8.0], 'tx': [1.0, 5.0, 9.0], 'period': 12.0}
+    # _periodic_overlap on scalar intervals, widths up to one period, starts up to 3/2 periods apart
+    for _ in range(40 if quick else 300):
+        P = float(rng.integers(4, 13)); x0 = float(rng.integers(-8, 25)) / 4; wx = float(rng.integers(0, int(4 * P) + 1)) / 4
+        y0 = x0 + float(rng.integers(-int(6 * P) + 1, int(6 * P))) / 4; wy = float(rng.integers(0, int(4 * P) + 1)) / 4
+        ctx.count('pov:' + ('wide' if wx + wy > P / 2 else 'narrow'))
+        yield 'pov', {'x0': x0, 'x1': x0 + wx, 'y0': y0, 'y1': y0 + wy, 'p': P}
     # latitude
     sizes = [4, 5, 6, 8, 12, 16, 24] if quick else [4, 5, 6, 7, 8, 10, 12, 16, 20, 24, 32, 48]
     nlat = 14 if quick else 80
@@ -110,11 +117,16 @@ def generate(ctx):
         ns = int(sizes[int(rng.integers(0, len(sizes)))]); nt = int(sizes[int(rng.integers(0, len(sizes)))])
         offs = [0.0, 0.05, 0.3, math.pi / ns, -0.3, 7.0, -2 * math.pi, 0.05 - 4 * math.pi]
         os_ = offs[int(rng.integers(0, len(offs)))]; ot = [0.0, 0.05, 0.3, math.pi / nt, -0.3, 7.0][int(rng.integers(0, 6))]
-        ks = 'random' if r % 4 == 3 and ns >= 6 else 'uniform'; kt = 'random' if r % 6 == 5 and nt >= 6 else 'uniform'
+        ks = 'random' if r % 4 == 3 and ns >= 5 else 'uniform'; kt = 'random' if r % 6 == 5 and nt >= 5 else 'uniform'
         if r == 0: ns, nt, os_, ot, ks, kt = 6, 4, 0.0, 0.0, 'uniform', 'uniform'   # the repo's own test case
         if r == 1: ns, nt, os_, ot, ks, kt = 4, 4, 0.0, 0.0, 'uniform', 'uniform'   # ties at period/2
         if r == 2: ns, nt, os_, ot, ks, kt = 8, 16, 0.3, 0.0, 'uniform', 'uniform'
         if r == 3: ns, nt, os_, ot, ks, kt = 12, 5, 0.05, math.pi / 5, 'uniform', 'uniform'
+        if r in (4, 5, 6, 7) or (r > 7 and r % 5 == 0):     # wide cells: widths add up to more than period/2
+            ns, nt = [(3, 3), (3, 4), (5, 3), (4, 3), (3, 8), (3, 5)][int(rng.integers(0, 6))] if r > 7 else [(3, 3), (3, 4), (5, 3), (3, 3)][r - 4]
+            ks = 'random' if r == 7 else 'uniform'; kt = 'uniform'
+            if r == 4: os_, ot = 0.0, 0.3
+            ctx.count('lon:wide cells (width sum > period/2)')
         ctx.count('lon:' + ('coarser' if nt < ns else 'finer' if nt > ns else 'same')); ctx.count(f'lon:{ks}->{kt}')
         ctx.count('lon:offset=%s' % ('0' if os_ == ot else 'different'))
         yield 'lon', {'sx': lon_centres(ks, ns, os_, rng), 'tx': lon_centres(kt, nt, ot, rng), 'fseed': int(rng.integers(0, 2 ** 31))}
@@ -160,7 +172,7 @@ def generate(ctx):
     pats = ['none', 'single', 'row', 'all', 'blob', 'lonline']
     for r in range(n2):
         small = (r % 2 == 0) or not quick and r % 3 == 0
-        lo = [4, 5, 6, 8] if small else [s for s in sizes if s <= smax]
+        lo = [3, 4, 5, 6, 8] if small else [3] + [s for s in sizes if s <= smax]
         nls = int(lo[int(rng.integers(0, len(lo)))]); nlt = int(lo[int(rng.integers(0, len(lo)))])
         nas = int(rng.integers(max(2, nls // 2 - 1), nls // 2 + 2)); nat_ = int(rng.integers(max(2, nlt // 2 - 1), nlt // 2 + 2))
         src = {'nlon': nls, 'nlat': nas, 'spacing': SPACINGS[int(rng.integers(0, 3))],
@@ -206,6 +218,15 @@ def r_align(ctx, a):
     ctx.oracle('_align_phase_with returns x shifted by at most one period, nearest to the target among those',
                abs(v - (a['x'] + k * a['p'])) < 1e-12 and k in (-1, 0, 1)
                and all(abs(v - a['t']) <= abs(a['x'] + s * a['p'] - a['t']) + 1e-12 for s in (-1, 0, 1)), {'v': v})
+
+
+def r_pov(ctx, a):
+    jnp, hi, vi, sh, sc = J()
+    x0, x1, y0, y1, P = a['x0'], a['x1'], a['y0'], a['y1'], a['p']
+    v = float(hi._periodic_overlap(x0, x1, y0, y1, P))
+    ctx.corr('_periodic_overlap', [v], ctx.model.call(11, [], [[x0, x1, y0, y1, P]]), scale=P)
+    true = sum(max(min(x1, y1 + k * P) - max(x0, y0 + k * P), 0.0) for k in range(-4, 5))
+    ctx.oracle_close('_periodic_overlap is the overlap with all periodic images (widths <= period)', [v], [true], scale=P)
 
 
 def r_lat(ctx, a):
@@ -268,21 +289,19 @@ def r_lon(ctx, a):
 
 
 def r_coarse_lon(ctx, a):
-    """Three-cell longitude grids: every cell is narrower than period/2 (the code
-    comment's condition) but two widths add up to more than period/2.  The model
-    (theorem C16_longitude_coarse_refuted) says the overlaps of source cell 0 do not
-    add up to its width; the implementation must agree with the model here.  This
-    is recorded, not alarmed: it is outside the domain of the proved/explored claim."""
+    """Three-cell longitude grids (cells period/3 wide; two widths add up to more than
+    period/2): the former failing input of _periodic_overlap.  Model = implementation,
+    and the partition identity of theorem C16_longitude_coarse_conserves holds."""
     jnp, hi, vi, sh, sc = J()
     P = a['period']; sx = np.asarray(a['sx']); tx = np.asarray(a['tx'])
     ov = np.asarray(hi._longitude_overlap(tx, sx, period=P))
     mo = ctx.model.call(5, [3, 3, 0, 0, 0, 0, 0, 0], [tx, sx, [P]])
-    ctx.corr('_longitude_overlap (3 x 3 cells, out of domain)', ov, mo, scale=P)
-    lo = np.asarray(hi._periodic_lower_bounds(sx, P)); up = np.asarray(hi._periodic_upper_bounds(sx, P))
-    lost = float((up - lo)[0] - ov.sum(axis=0)[0])
-    ctx.count('coarse_lon: overlap lost for source cell 0 = %.6g (model: %s)' % (lost, str(Fraction(4) - sum(mo[0::3])) if mo else '?'))
-    ctx.notes.append('3x3 longitude cells of width period/3: column sums of _longitude_overlap are %s, cell widths %s '
-                     '(partition identity fails, as proved in C16_longitude_coarse_refuted)' % (ov.sum(axis=0).tolist(), (up - lo).tolist()))
+    ctx.corr('_longitude_overlap (3 x 3 wide cells)', ov, mo, scale=P)
+    slo = np.asarray(hi._periodic_lower_bounds(sx, P)); sup = np.asarray(hi._periodic_upper_bounds(sx, P))
+    tlo = np.asarray(hi._periodic_lower_bounds(tx, P)); tup = np.asarray(hi._periodic_upper_bounds(tx, P))
+    ctx.oracle_close('longitude: overlaps of a source cell add up to its width', ov.sum(axis=0), sup - slo, scale=P)
+    ctx.oracle_close('longitude: overlaps of a target cell add up to its width', ov.sum(axis=1), tup - tlo, scale=P)
+    ctx.exact('model: column/row sums of the 3x3 witness', [str(sum(mo[j::3])) for j in range(3)] + [str(sum(mo[3 * i:3 * i + 3])) for i in range(3)], ['4'] * 6)
 
 
 def _ov1(lo1, hi1, lo2, hi2):
@@ -457,4 +476,4 @@ def r_regrid2d(ctx, a):
                  scale=float(np.abs(vals).max()) / max(float(mfrac[both].min()) if both.any() else 1.0, 1e-3))
 
 
-RUNNERS = {'coarse_lon': r_coarse_lon, 'align': r_align, 'lat': r_lat, 'lon': r_lon, 'vert': r_vert, 'hybrid': r_hybrid, 'regrid2d': r_regrid2d}
+RUNNERS = {'coarse_lon': r_coarse_lon, 'pov': r_pov, 'align': r_align, 'lat': r_lat, 'lon': r_lon, 'vert': r_vert, 'hybrid': r_hybrid, 'regrid2d': r_regrid2d}
